@@ -10,7 +10,11 @@ the invariant.  Every explored list is replayed into both engines (BLS12-381,
 BN254): product of single pairings, multi_miller_loop + final_exponentiation on
 prepared G2 points in both orders, pairing_with from both sides; the logarithm
 of each result to the base e(g1, g2) is found by search and Pairing_Trace
-requires it to be the specification's."""
+requires it to be the specification's.  Target-group values are judged as Fp12
+arithmetic (Tower.tla), and the pairing of points given by their coordinates is
+compared with the optimal ate pairing written out from first principles
+(AtePairing.tla: Miller's algorithm on the twist, untwisting map, full final
+exponentiation)."""
 import json
 import os
 import random
@@ -51,7 +55,8 @@ def run(tier):
     pairs = [r for r in rows if r["ev"] == "Pair"]
     gtf = [r for r in rows if r["ev"] == "GtF"]
     ml = [r for r in rows if r["ev"] == "PairML"]
-    rows = [r for r in rows if r["ev"] not in ("GtF", "PairML")]
+    ppt = [r for r in rows if r["ev"] == "PairPt"]
+    rows = [r for r in rows if r["ev"] not in ("GtF", "PairML", "PairPt")]
     # combining Miller-loop results is a recorded open finding for the BN254 engine (known_findings.json): every such event
     # fails the same way, so three of them are validated (and reported as the known finding) and the rest only counted
     kf = json.load(open(os.path.join(vlib.ROOT, "known_findings.json")))["findings"]
@@ -78,8 +83,15 @@ def run(tier):
         rep.violation({"engine": e["engine"], "what": "gt_as_fp12", "op": e["op"]},
                       f"{e['engine']} target-group value differs from the Fp12 arithmetic of Tower.tla: op={e['op']} x={json.dumps(e['x'])[:120]}",
                       {"scenario": {"terms": [[1, 1]], "expect": 1}, "event": {k: e[k] for k in ("engine", "op", "x")}})
-    if not gtf:
-        raise vlib.ToolError("vacuity: no target-group value recorded")
+    if not gtf or not ppt:
+        raise vlib.ToolError("vacuity: no target-group value / no pairing of given points recorded")
+    # the pairing itself: e(P, Q) for points given by coordinates against the first-principles optimal ate pairing (AtePairing.tla)
+    pgood, prej, _ = vlib.validate_many([head + [e] for e in ppt], "Pairing_Trace.tla", "Pairing_Trace.cfg", "C13", "ppt", max_rejects=6,
+                                        start_ev="PairPt")
+    for run_rows, line, e in prej:
+        rep.violation({"engine": e["engine"], "what": "ate_pairing", "identity_argument": e["a"] == 0 or e["b"] == 0},
+                      f"{e['engine']} e({e['a']}.G1, {e['b']}.G2) is not the reduced optimal ate pairing of AtePairing.tla (to the engine's fixed power)",
+                      {"scenario": {"terms": [[e["a"], e["b"]]], "expect": e["a"] * e["b"]}, "event": {k: e[k] for k in ("engine", "a", "b")}})
     # Gt lines sit between runs: validate_runs treats everything after the first Pair as part of runs, so check them apart
     for run_rows, line, e in rejected:
         if e["ev"] == "Gt":
@@ -99,6 +111,7 @@ def run(tier):
         "lists_enumerated": len(allsc), "lists_replayed": len(pick), "events": len(pairs),
         "max_list_length": max(len(s["terms"]) for s in pick),
         "evaluations": len(pairs) * 9 + len(gtf), "target_group_values_judged_as_fp12": len(ggood), "final_exponentiations": len(fe),
+        "pairings_judged_against_first_principles_ate_pairing": len(pgood),
         "miller_loop_combinations_judged": len(mgood), "miller_loop_combinations_skipped_as_known_finding": len(ml) - len(ml_checked),
         "distinct_nontrivial": len(set((e["engine"], len(e["terms"]), e["expect"]) for e in pairs)),
         "rule": "Pairing_Trace!PairOK: log of every entry point's result = sum a_i.b_i; single pairing is the identity iff an argument is",
@@ -108,7 +121,8 @@ def run(tier):
     })
     rep.assumptions += ["logarithms are found by search over the library's own Gt group operations (window 80); those operations, the pairing values "
                         "and the final exponentiation (f^(c (p^12 - 1)/r), c = 3 for BLS12-381 / blst and 1 for BN254) are judged as Fp12 "
-                        "arithmetic on their coefficients; the Miller loop itself is not re-derived", "Gt has no byte encoding in the library"]
+                        "arithmetic on their coefficients; the pairing of points given by coordinates is compared with the optimal ate pairing written "
+                        "out from Miller's algorithm and the untwisting map (AtePairing.tla), to the same power c", "Gt has no byte encoding in the library"]
     return rep.finish()
 
 
